@@ -61,6 +61,13 @@ func filterDependencies(n *component_definition.Property, metas []*component_def
 	if len(result) == 0 {
 		return nil, errors.Errorf("inject '%s' not found available components", n)
 	}
+	//remove self-inject before any preference is applied, so the holder never displaces another candidate
+	result = fas.Filter(result, func(m *component_definition.Meta) bool {
+		return !n.Holder.Meta.IsSelf(m)
+	})
+	if len(result) == 0 {
+		return nil, errors.Errorf("inject '%s':%s: self inject not allowed", n, n.Holder.Stack())
+	}
 	//filter qualifier
 	if qualifierName, isQualifier := n.Args().Find(component_definition.ArgQualifier); isQualifier {
 		result = fas.Filter(result, func(m *component_definition.Meta) bool {
